@@ -102,3 +102,11 @@ Definition delivered (s : rstate) : str := concat (bw_conn (rs_bw s)).
 Definition relay_finish (cap : nat) (pats : list pat) (s : rstate) (tail : list str) : rstate :=
   let s' := wsteps cap pats (rs_last s, rs_bw s) tail in
   mkRs (rs_avail s) (fst s') (bw_flush (snd s')) (rs_reads s) (rs_arrived s).
+
+(* ------------------------------------------------------------------ link to the model of Response.Write *)
+(* the writes after the last read (modelled Response.Write): last chunk, trailer section *)
+Definition go_tail (meth : str) (r : resp) : list str :=
+  if g_te (go_state meth r) then [b "0" ++ crlf] ++ header_writes [] (final_trailer r) ++ [crlf] else [].
+(* the schedule in which every read arrives and is read at once *)
+Definition seq_schedule (reads : list str) : list ev :=
+  flat_map (fun d => [Arrive d; Read (length d - 1)]) reads.
